@@ -133,16 +133,19 @@ class VOpaque:
 
 
 class VStatic:
-    """pointer into a constant allocation: (alloc name, byte offset term, elem info)"""
-    __slots__ = ("alloc", "off", "ty")
+    """pointer into a constant (read-only) allocation: alloc info dict, byte offset (python int),
+    pointee type text, optional slice length, and the namespace to resolve relocations in"""
+    __slots__ = ("alloc", "off", "ty", "length", "ns")
 
-    def __init__(self, alloc, off, ty):
+    def __init__(self, alloc, off, ty, length=None, ns=None):
         self.alloc = alloc
         self.off = off
         self.ty = ty
+        self.length = length
+        self.ns = ns
 
     def __repr__(self):
-        return "VStatic(%s+%s:%s)" % (self.alloc, self.off, self.ty)
+        return "VStatic(+%s:%s len=%s)" % (self.off, self.ty, self.length)
 
 
 class VBoxVal:
@@ -279,6 +282,7 @@ class Encoder:
         self.stats = {"blocks": 0, "stmts": 0, "divmods": 0, "bitblasts": 0}
         self._divcache = {}
         self._constcache = {}
+        self.const_by_id = {}
         self.bounds = bounds or {}
         self.resolver = resolver      # callable(callee text, nargs) -> Function | None
         self.call_depth = 0
@@ -289,6 +293,8 @@ class Encoder:
     def add_def(self, defined, constraint):
         """record a definitional constraint: it pins down the constants in `defined`
         (fresh, never constrained elsewhere) in terms of older ones"""
+        for d in defined:
+            self.const_by_id[d.get_id()] = d
         self.defs.append((tuple(d.get_id() for d in defined), constraint))
 
     def fresh(self, base, sort="Int"):
@@ -640,9 +646,14 @@ class Encoder:
             if m.group(1).strip() == "":
                 return VAgg(vals)
             return self.adt_value(m.group(1), vals)
-        m = re.match(r"^\{(alloc\d+)(?:\+0x[0-9a-f]+)?(?:<imm>)?: (.*)\}$", txt)
+        m = re.match(r"^\{(alloc\d+)(?:\+0x([0-9a-f]+))?(?:<imm>)?: (.*)\}$", txt)
         if m:
-            return VStatic(m.group(1), z3.IntVal(0), m.group(2))
+            info = self.find_alloc(m.group(1))
+            ty = m.group(3).strip()
+            if info is None or not ty.startswith("&"):
+                return VOpaque("alloc-const")
+            pointee = re.sub(r"^&('\w+ )?(mut )?", "", ty)
+            return VStatic(info, int(m.group(2) or "0", 16), pointee, ns=getattr(self.fn, "alloc_ns", None))
         # ranged-integer associated constants
         mr = re.match(r"^(?:.*::)?(ri(?:8|16|32|64|128))::<(-?\d+), (-?\d+)>::(MIN_SELF|MAX_SELF)$", txt)
         if mr and not self.debug_assertions:
@@ -745,12 +756,14 @@ class Encoder:
         """resolve derefs: returns (root local, path) or None when it points to opaque memory"""
         root = place.local
         path = []
-        for el in place.proj:
+        for n_el, el in enumerate(place.proj):
             if el[0] == "deref":
                 v = self.read_path(state, root, path)
                 if isinstance(v, VRef):
                     root, path = v.local, list(v.proj)
-                elif isinstance(v, (VOpaque, VUninit, VStatic)):
+                elif isinstance(v, VStatic):
+                    return ("opaque", v, list(place.proj[n_el + 1:]))
+                elif isinstance(v, (VOpaque, VUninit)):
                     return ("opaque", v)
                 else:
                     raise Refuse("deref of %r" % (v,))
@@ -846,12 +859,119 @@ class Encoder:
         c = self.canon(state, place)
         if c[0] == "opaque":
             if isinstance(c[1], VStatic):
-                return self.static_read(state, place, c[1])
+                return self.static_read(state, c[2], c[1])
             return VOpaque("mem")
         return self.read_path(state, c[0], c[1])
 
-    def static_read(self, state, place, sp):
-        raise Refuse("read through static pointer %r" % (sp,))
+    def find_alloc(self, name, ns=None):
+        ns = ns if ns is not None else getattr(self.fn, "alloc_ns", None)
+        if ns is not None:
+            a = ns.find_alloc(name)
+            if a is not None:
+                return a
+        return self.allocs.get(name)
+
+    TY_SIZES = {"Constant": 8, "jiff::util::t::Constant": 8, "util::t::Constant": 8, "t::Constant": 8}
+
+    def ty_size(self, ty):
+        ty = ty.strip()
+        if ty in INT_TYPES:
+            return INT_TYPES[ty][0] // 8
+        if ty == "bool":
+            return 1
+        if ty in self.TY_SIZES:
+            return self.TY_SIZES[ty]
+        m = re.match(r"^\[(.*); (\d+)\]$", ty)
+        if m:
+            return self.ty_size(m.group(1)) * int(m.group(2))
+        if ty.startswith("&"):
+            inner = re.sub(r"^&('\w+ )?(mut )?", "", ty)
+            return 16 if (inner.startswith("[") and not re.match(r"^\[.*; \d+\]$", inner)) or inner == "str" else 8
+        raise Refuse("size of type %s in static memory" % ty)
+
+    def static_load(self, sp):
+        """load a value of type sp.ty from the constant allocation at sp.off"""
+        ty = sp.ty.strip()
+        data, relocs = sp.alloc["bytes"], sp.alloc["relocs"]
+        if ty in INT_TYPES or ty == "bool":
+            n = 1 if ty == "bool" else INT_TYPES[ty][0] // 8
+            bs = data[sp.off:sp.off + n]
+            if len(bs) != n or any(b is None for b in bs):
+                raise Refuse("static load of uninitialised/out-of-bounds bytes")
+            v = int.from_bytes(bytes(bs), "little", signed=False)
+            if ty == "bool":
+                return VBool(z3.BoolVal(bool(v)))
+            bits, signed = INT_TYPES[ty]
+            if signed and v >= 1 << (bits - 1):
+                v -= 1 << bits
+            return self.const_int(v, ty)
+        if ty in self.TY_SIZES:
+            return VAgg({0: self.static_load(VStatic(sp.alloc, sp.off, "i64", ns=sp.ns))}, tag="Constant")
+        m = re.match(r"^\[(.*); (\d+)\]$", ty)
+        if m:
+            es = self.ty_size(m.group(1))
+            return VAgg({i: self.static_load(VStatic(sp.alloc, sp.off + i * es, m.group(1), ns=sp.ns)) for i in range(int(m.group(2)))})
+        if ty.startswith("&"):
+            inner = re.sub(r"^&('\w+ )?(mut )?", "", ty)
+            if sp.off not in relocs:
+                raise Refuse("static pointer without relocation")
+            an, aoff = relocs[sp.off]
+            info = self.find_alloc(an, sp.ns)
+            if info is None:
+                raise Refuse("relocation target %s not found" % an)
+            length = None
+            if inner.startswith("[") and not re.match(r"^\[.*; \d+\]$", inner):
+                lb = data[sp.off + 8:sp.off + 16]
+                length = int.from_bytes(bytes(lb), "little")
+            return VStatic(info, aoff, inner, length=length, ns=sp.ns)
+        raise Refuse("static load of type %s" % ty)
+
+    def static_read(self, state, rest, sp):
+        """read a place whose deref chain ran into the static pointer sp: `rest` are the projections
+        that follow that deref; they are applied to the constant memory"""
+        cur = [(None, sp)]   # list of (condition, VStatic place) alternatives
+        for el in rest:
+            nxt = []
+            for cond, p in cur:
+                ty = p.ty.strip()
+                m = re.match(r"^\[(.*?)(?:; (\d+))?\]$", ty)
+                if el[0] == "deref":
+                    q = self.static_load(p)
+                    if not isinstance(q, VStatic):
+                        raise Refuse("deref of non-pointer in static memory")
+                    nxt.append((cond, q))
+                elif el[0] == "index" and m:
+                    es = self.ty_size(m.group(1))
+                    n = int(m.group(2)) if m.group(2) else p.length
+                    iv = state.get(el[1])
+                    if not isinstance(iv, VInt) or n is None:
+                        raise Refuse("static index")
+                    c = self.as_const(iv.t)
+                    ks = [c] if c is not None else [k for k in range(n) if iv.lo <= k <= iv.hi]
+                    for k in ks:
+                        if not (0 <= k < n):
+                            continue
+                        cc = None if c is not None else (iv.t == k)
+                        if cond is not None:
+                            cc = cond if cc is None else z3.And(cond, cc)
+                        nxt.append((cc, VStatic(p.alloc, p.off + k * es, m.group(1), ns=p.ns)))
+                elif el[0] == "cindex" and m and not el[3]:
+                    es = self.ty_size(m.group(1))
+                    nxt.append((cond, VStatic(p.alloc, p.off + el[1] * es, m.group(1), ns=p.ns)))
+                elif el[0] == "field" and ty in self.TY_SIZES and el[1] == 0:
+                    nxt.append((cond, VStatic(p.alloc, p.off, "i64", ns=p.ns)))
+                else:
+                    raise Refuse("projection %r into static %s" % (el, ty))
+            cur = nxt
+            if len(cur) > 512:
+                raise Refuse("static read fan-out too large")
+        if not cur:
+            return UNINIT
+        vals = [(c, self.static_load(p)) for c, p in cur]
+        res = vals[-1][1]
+        for c, v in reversed(vals[:-1]):
+            res = self.merge(c, v, res)
+        return res
 
     def write(self, state, place, val):
         c = self.canon(state, place)
@@ -961,8 +1081,8 @@ class Encoder:
         if isinstance(a, VOpaque) or isinstance(b, VOpaque):
             # one side lost precision: the merged value is opaque
             return VOpaque("merge")
-        if isinstance(a, VStatic) and isinstance(b, VStatic) and a.alloc == b.alloc:
-            return VStatic(a.alloc, z3.If(cond, a.off, b.off), a.ty)
+        if isinstance(a, VStatic) and isinstance(b, VStatic) and a.alloc is b.alloc and a.off == b.off and a.ty == b.ty:
+            return a
         raise Refuse("merge %r / %r" % (type(a).__name__, type(b).__name__))
 
     # ------------------------------------------------------------ operands / rvalues
@@ -994,7 +1114,7 @@ class Encoder:
                 if INT_TYPES[ty][0] != INT_TYPES[v.ty][0]:
                     raise Refuse("transmute width change")
                 return self.wrap(v.t, v.lo, v.hi, ty)
-            if isinstance(v, (VOpaque, VRef, VStatic)):
+            if isinstance(v, (VOpaque, VRef, VStatic, VBoxVal)):
                 return v
             if isinstance(v, VInt) and (ty.startswith("*") or ty.startswith("&") or "NonNull" in ty):
                 return VOpaque("int-as-pointer")
@@ -1007,7 +1127,7 @@ class Encoder:
                     return self.cast(list(v.f.values())[0], ty, kind)
             raise Refuse("transmute %r to %s" % (v, ty))
         if kind.startswith("PtrToPtr") or kind.startswith("PointerCoercion") or kind in ("FnPtrToPtr", "PointerExposeProvenance", "PointerWithExposedProvenance"):
-            if isinstance(v, (VRef, VOpaque, VStatic)):
+            if isinstance(v, (VRef, VOpaque, VStatic, VBoxVal)):
                 return v
             if isinstance(v, VInt):
                 return VOpaque("int-as-pointer")
@@ -1113,6 +1233,8 @@ class Encoder:
         if op == "Neg" and isinstance(a, VInt):
             return self.wrap(-a.t, -a.hi, -a.lo, a.ty)
         if op == "PtrMetadata":
+            if isinstance(a, VStatic) and a.length is not None:
+                return self.const_int(a.length, "usize")
             return VOpaque("ptrmeta")
         raise Refuse("unop %s on %r" % (op, a))
 
@@ -1135,6 +1257,8 @@ class Encoder:
             return self.binop(rv[1], a, b)
         if k == "unop":
             a = self.operand(state, rv[2])
+            if isinstance(a, VStatic) and rv[1] == "PtrMetadata":
+                return self.unop(rv[1], a)
             if isinstance(a, VOpaque):
                 return self.opaque_scalar(dest_ty, "unop on opaque")
             return self.unop(rv[1], a)
@@ -1145,7 +1269,12 @@ class Encoder:
                     return VBoxVal(self.read(state, rv[2]))
             c = self.canon(state, rv[2])
             if c[0] == "opaque":
-                return c[1] if isinstance(c[1], VStatic) else VOpaque("ref-to-mem")
+                if isinstance(c[1], VStatic):
+                    if not c[2]:
+                        return c[1]
+                    # reference to an element of constant memory: snapshot of its value
+                    return VBoxVal(self.static_read(state, c[2], c[1]))
+                return VOpaque("ref-to-mem")
             return VRef(c[0], c[1])
         if k == "copyderef":
             return self.read(state, rv[1])
@@ -1187,6 +1316,8 @@ class Encoder:
             raise Refuse("nullary op " + rv[2])
         if k == "len":
             v = self.read(state, rv[1])
+            if isinstance(v, VStatic) and v.length is not None:
+                return self.const_int(v.length, "usize")
             if isinstance(v, VAgg):
                 return self.const_int(len(v.f), "usize")
             raise Refuse("Len of %r" % (v,))
